@@ -205,7 +205,7 @@ def jobs(tier):
 
 
 BOUNDS = {
-    "quick": "all interleavings (symbolic choice vector, every suspension point a scheduling point) of 2..3 consumers; source length 0..2, 0..2 suspensions per source item, consumer pause 0..1, lock present (incl. suspending acquire and suspending release) or absent (non-suspending sources only), child 0 closed after j<=2 items, last consumer cancelled at its k-th suspension (k<=4); sources class-based and async generators",
+    "quick": "all interleavings (symbolic choice vector, every suspension point a scheduling point) of 2..3 consumers; source length 0..2, 0..2 suspensions per source item, consumer pause 0..1, lock present (incl. suspending acquire and suspending release) or absent (non-suspending sources only), child 0 closed after j<=2 items, last consumer cancelled at its k-th suspension (k<=4); sources class-based and async generators; None as an item; after a cancellation nothing stays buffered for the dead child (weak references at quiescence)",
     "thorough": "additionally 4 consumers with length 1, 2 consumers with length 3",
 }
 OUTSIDE = ["retention is measured for sequential progress patterns of two children only (shared with C20)", "4 consumers with length > 1, length 4, 3 consumers with length 2 and pause 1 (2*10^5 schedules)", "more than one early close / cancellation per run"]
